@@ -337,7 +337,7 @@ func c16Body(configured bool) func(rc *RunCtx) {
 		}
 		// flush liveness: after producers stop everything accepted is emitted within
 		// wait-time + one poll of virtual time
-		simrt.Settle(int64(time.Duration(2*d.WaitMs+50) * time.Millisecond))
+		simrt.Settle(int64(time.Duration(2*d.WaitMs+1000) * time.Millisecond)) // generous: executing code costs virtual CPU time too
 		d.EndMs = dateutil.SystemNow()
 	}
 }
